@@ -87,6 +87,17 @@ def build(tier="quick"):
         tv = open(os.path.join(COQ, "Gen/Tables.v")).read()
         b.tables_hash = hashlib.sha256(tv.encode()).hexdigest()[:16]
         b.translator_notes = re.findall(r"\(\* (UNTRANSLATED[^*]*|UNPARSED[^*]*)\*\)", tv)
+        # 1b. site inventories
+        if not os.path.exists(os.path.join(BIN, "goaudit")) or newer(os.path.join(ROOT, "tools/goaudit/main.go"), os.path.join(BIN, "goaudit")):
+            r = sh(["go", "build", "-o", os.path.join(BIN, "goaudit"), "./goaudit"], cwd=os.path.join(ROOT, "tools"), env=GOENV)
+            if r.returncode != 0:
+                b.ok = False
+                b.coq_log += "goaudit build failed:\n" + r.stderr
+                return b
+        r = sh([os.path.join(BIN, "goaudit"), REPO, os.path.join(COQ, "Gen/Sites.v")])
+        if r.returncode != 0:
+            b.ok = False
+            b.coq_log += "goaudit failed:\n" + r.stderr
         for extra in EXTRA_TRANSLATORS:
             extra(b)
         # 2. proofs (full .vo build, keep going so that independent properties still check)
